@@ -643,6 +643,132 @@ theorem wireUp_kind (s s' : St) (hl : LInv s.links) (hk : KindInv s) (node : Nat
       obtain ⟨_, b2, _⟩ := completeOp_frame s1 s2 node tys1 h2
       exact kindInv_same_links (wireUpPorts_kind node ws s s1 0 tys1 hl hk h1) b2
 
+/-! ### no dangling links: both ends of every link are live nodes -/
+
+def LiveInv (s : St) : Prop :=
+  ∀ l ∈ linksList s, (∃ p, nodeParent s l.1.1 = .ok p) ∧ (∃ p, nodeParent s l.2.1 = .ok p)
+
+theorem liveInv_frame {s s' : St} (F : HFrame s s') (h : LiveInv s)
+    (hnew : ∀ l ∈ linksList s', l ∉ linksList s → (∃ p, nodeParent s' l.1.1 = .ok p) ∧ (∃ p, nodeParent s' l.2.1 = .ok p)) :
+    LiveInv s' := by
+  intro l hl
+  by_cases hm : l ∈ linksList s
+  · obtain ⟨⟨p, hp⟩, ⟨q, hq⟩⟩ := h l hm
+    exact ⟨⟨p, F.par _ _ hp⟩, ⟨q, F.par _ _ hq⟩⟩
+  · exact hnew l hl hm
+
+theorem liveInv_same_links {s s' : St} (F : HFrame s s') (h : LiveInv s) (e : linksList s' = linksList s) : LiveInv s' :=
+  liveInv_frame F h (fun l hl hn => absurd (by rw [e] at hl; exact hl) hn)
+
+theorem nodeParent_of_getNode (s : St) (i : Nat) (d : NodeData Op Serial.Meta) (h : Store.getNode s i = .ok d) :
+    ∃ p, nodeParent s i = .ok p := ⟨d.parent, by unfold nodeParent; simp [h]⟩
+
+theorem liveInv_addLink (s s' : St) (hl : LInv s.links) (hk : LiveInv s) (a b : Port)
+    (h : Store.addLink s a b = .ok s') : LiveInv s' := by
+  obtain ⟨_, a2, a3⟩ := addLink_loc s s' hl a b h
+  have F : HFrame s s' := hframe_of_grow a2 (fun l hm => by rw [a3]; simp [hm])
+  obtain ⟨_, ⟨ds, es, _⟩, ⟨dd, ed, _⟩⟩ := Store.addLink_nodes s s' a b h
+  refine liveInv_frame F hk ?_
+  intro l hm hn
+  rw [a3] at hm
+  have : l = (a, b) := by
+    rcases List.mem_append.mp hm with h' | h'
+    · exact absurd h' hn
+    · simpa using h'
+  subst this
+  exact ⟨nodeParent_of_getNode s' _ ds es, nodeParent_of_getNode s' _ dd ed⟩
+
+theorem liveInv_addOrderLink (s s' : St) (hl : LInv s.links) (hk : LiveInv s) (a b : Nat)
+    (h : Store.addOrderLink s a b = .ok s') : LiveInv s' := by
+  unfold Store.addOrderLink at h
+  by_cases hh : Store.hasLink s (a, -1) (b, -1) = true
+  · simp [hh, pure, Except.pure] at h; subst h; exact hk
+  · simp only [hh] at h
+    exact liveInv_addLink s s' hl hk _ _ h
+
+theorem wireUpPortBase_live (s s' : St) (hl : LInv s.links) (hk : LiveInv s) (node off : Nat) (w : Wire) (t : Ty)
+    (h : wireUpPortBase s node off w = .ok (s', t)) : LiveInv s' := by
+  unfold wireUpPortBase at h
+  cases ha : ancestralSibling s w.1 node with
+  | error e => simp [ha] at h
+  | ok oa =>
+    cases oa with
+    | none => simp [ha] at h
+    | some anc =>
+      simp only [ha] at h
+      unfold linkPort at h
+      by_cases hne : anc = node
+      · subst hne
+        simp only [ne_eq, not_true_eq_false, if_false] at h
+        cases hkk : Store.addLink s w (anc, (off : Int)) with
+        | error e => simp [hkk, liftS] at h
+        | ok s2 =>
+          simp only [hkk, liftS] at h
+          cases hg : getDataflowType s2 w with
+          | error e => simp [hg] at h
+          | ok t' =>
+            simp only [hg] at h
+            injection h with h; injection h with h1 h2; subst h1
+            exact liveInv_addLink s s2 hl hk _ _ hkk
+      · simp only [ne_eq, hne, not_false_eq_true, if_true] at h
+        cases ho : Store.addOrderLink s w.1 anc with
+        | error e => simp [ho, liftS] at h
+        | ok s1 =>
+          simp only [ho, liftS] at h
+          obtain ⟨b1, _, _, _, _⟩ := addOrderLink_loc s s1 hl _ _ ho
+          have k1 := liveInv_addOrderLink s s1 hl hk _ _ ho
+          cases hkk : Store.addLink s1 w (node, (off : Int)) with
+          | error e => simp [hkk] at h
+          | ok s2 =>
+            simp only [hkk] at h
+            cases hg : getDataflowType s2 w with
+            | error e => simp [hg] at h
+            | ok t' =>
+              simp only [hg] at h
+              injection h with h; injection h with h1 h2; subst h1
+              exact liveInv_addLink s1 s2 b1 k1 _ _ hkk
+
+theorem wireUpPorts_live (node : Nat) : ∀ (ws : List Wire) (s s' : St) (i : Nat) (tys : List Ty),
+    LInv s.links → LiveInv s → wireUpPorts none node s i ws = .ok (s', tys) → LiveInv s' := by
+  intro ws
+  induction ws with
+  | nil =>
+    intro s s' i tys hl hk h
+    simp only [wireUpPorts] at h
+    injection h with h; injection h with h1 h2; subst h1; exact hk
+  | cons w ws ih =>
+    intro s s' i tys hl hk h
+    simp only [wireUpPorts, wireUpPort] at h
+    cases h1 : wireUpPortBase s node i w with
+    | error e => simp [h1] at h
+    | ok r =>
+      obtain ⟨s1, t⟩ := r
+      simp only [h1] at h
+      cases h2 : wireUpPorts none node s1 (i + 1) ws with
+      | error e => simp [h2] at h
+      | ok r2 =>
+        obtain ⟨s2, ts⟩ := r2
+        simp only [h2] at h
+        injection h with h; injection h with e1 e2; subst e1
+        obtain ⟨a1, _, _⟩ := wireUpPortBase_loc s s1 hl node i w t h1
+        exact ih s1 s2 (i + 1) ts a1 (wireUpPortBase_live s s1 hl hk node i w t h1) h2
+
+theorem wireUp_live (s s' : St) (hl : LInv s.links) (hk : LiveInv s) (node : Nat) (ws : List Wire) (tys : List Ty)
+    (h : wireUp s none node ws = .ok (s', tys)) : LiveInv s' := by
+  unfold wireUp at h
+  cases h1 : wireUpPorts none node s 0 ws with
+  | error e => simp [h1] at h
+  | ok r =>
+    obtain ⟨s1, tys1⟩ := r
+    simp only [h1] at h
+    cases h2 : completeOp s1 node tys1 with
+    | error e => simp [h2] at h
+    | ok s2 =>
+      simp only [h2] at h
+      injection h with h; injection h with e1 e2; subst e1
+      obtain ⟨b1, b2, _⟩ := completeOp_frame s1 s2 node tys1 h2
+      exact liveInv_same_links b1 (wireUpPorts_live node ws s s1 0 tys1 hl hk h1) b2
+
 /-! ### adding a node -/
 
 theorem addNode_loc (s s' : St) (hf : FreeInv s) (op : Op) (parent : Option Nat) (k : Option Nat) (md : Serial.Meta)
@@ -680,29 +806,33 @@ structure LInvS (s : St) : Prop where
   free : FreeInv s
   loc : LocInv s
   kind : KindInv s
+  live : LiveInv s
 
 theorem linvS_addNode (s s' : St) (hs : LInvS s) (op : Op) (parent : Option Nat) (k : Option Nat) (md : Serial.Meta)
     (n : Nat) (h : Store.addNode s op parent k md = .ok (s', n)) : LInvS s' := by
   obtain ⟨a1, a2, a3, a4⟩ := addNode_loc s s' hs.free op parent k md n h
   exact ⟨by rw [a4]; exact hs.links, a1, locInv_same_links a2 hs.loc (fun l hm => by rw [a3] at hm; exact hm),
-    kindInv_same_links hs.kind a3⟩
+    kindInv_same_links hs.kind a3, liveInv_same_links a2 hs.live a3⟩
 
 theorem linvS_wireUp (s s' : St) (hs : LInvS s) (node : Nat) (ws : List Wire) (tys : List Ty)
     (h : wireUp s none node ws = .ok (s', tys)) : LInvS s' := by
   obtain ⟨a1, _, a3⟩ := wireUp_loc s s' hs.links hs.loc node ws tys h
-  exact ⟨a1, wireUp_free s s' hs.free node ws tys h, a3, wireUp_kind s s' hs.links hs.kind node ws tys h⟩
+  exact ⟨a1, wireUp_free s s' hs.free node ws tys h, a3, wireUp_kind s s' hs.links hs.kind node ws tys h,
+    wireUp_live s s' hs.links hs.live node ws tys h⟩
 
 theorem linvS_setOp (s s' : St) (hs : LInvS s) (i : Nat) (op : Op)
     (hst : ∀ op0, nodeOp s i = .ok op0 → staticIn op = staticIn op0) (h : setOp s i op = .ok s') : LInvS s' := by
   obtain ⟨f, l, k⟩ := setOp_frame s s' i op hst h
   exact ⟨by rw [k]; exact hs.links, setOp_free s s' hs.free i op h,
-    locInv_same_links f hs.loc (fun x hm => by rw [l] at hm; exact hm), kindInv_same_links hs.kind l⟩
+    locInv_same_links f hs.loc (fun x hm => by rw [l] at hm; exact hm), kindInv_same_links hs.kind l,
+    liveInv_same_links f hs.live l⟩
 
 theorem linvS_updateNodeOuts (s s' : St) (hs : LInvS s) (i k : Nat) (h : Store.updateNodeOuts s i k = .ok s') :
     LInvS s' := by
   obtain ⟨f, l, kk⟩ := updateNodeOuts_frame s s' i k h
   exact ⟨by rw [kk]; exact hs.links, updateNodeOuts_free s s' hs.free i k h,
-    locInv_same_links f hs.loc (fun x hm => by rw [l] at hm; exact hm), kindInv_same_links hs.kind l⟩
+    locInv_same_links f hs.loc (fun x hm => by rw [l] at hm; exact hm), kindInv_same_links hs.kind l,
+    liveInv_same_links f hs.live l⟩
 
 /-- a link into the static input port of its target (`call`, `load`, `load_function`) -/
 theorem linvS_addStaticLink (s s' : St) (hs : LInvS s) (a : Port) (n off : Nat)
@@ -712,7 +842,7 @@ theorem linvS_addStaticLink (s s' : St) (hs : LInvS s) (a : Port) (n off : Nat)
   obtain ⟨a1, a2, a3⟩ := addLink_loc s s' hs.links _ _ h
   have F : HFrame s s' := hframe_of_grow a2 (fun l hm => by rw [a3]; simp [hm])
   refine ⟨a1, addLink_free s s' hs.free _ _ h, locInv_step F hs.loc ?_,
-    kindInv_addLink s s' hs.links hs.kind _ _ (by simp [ha]) h⟩
+    kindInv_addLink s s' hs.links hs.kind _ _ (by simp [ha]) h, liveInv_addLink s s' hs.links hs.live _ _ h⟩
   intro l hm hn _ hns
   rw [a3] at hm
   have : l = (a, (n, (off : Int))) := by
@@ -734,7 +864,7 @@ theorem linvS_init (op : Op) (md : Serial.Meta) : LInvS (Store.init op md : St) 
       have e := (Store.addNodeRaw_spec _ s ⟨by intro i; simp, by simp⟩ op none (some 0) md i heq).2.2.2.2.1
       simp [linksList, e, BiMap.empty]
     · simp [linksList, BiMap.empty]
-  refine ⟨h.links, h.free, ?_, fun l hl => by rw [hnil] at hl; cases hl⟩
+  refine ⟨h.links, h.free, ?_, (fun l hl => by rw [hnil] at hl; cases hl), (fun l hl => by rw [hnil] at hl; cases hl)⟩
   intro l hl
   have : linksList (Store.init op md : St) = [] := by
     unfold Store.init
